@@ -14,8 +14,9 @@
 (***************************************************************************)
 EXTENDS Integers, Sequences, FiniteSets, TLC
 
-VARIABLES on, now, given, active
-rvars == <<on, now, given, active>>
+VARIABLES on, now, given, active,
+    ever    \* every rule ever handed in since the reset (an equal rule may be reported under any id it was ever given)
+rvars == <<on, now, given, active, ever>>
 
 Fams == {"flow", "iso", "hot", "cb", "sys"}
 SeqToSet(s) == {s[i] : i \in 1..Len(s)}
@@ -48,7 +49,7 @@ ValidOf(fam, S) == {r \in S : Valid(fam, r)}
 \* rules known to the manager - an unchanged rule keeps its controller and is reported under the id it
 \* was first given; a rule given under several ids is kept once or several times.
 Reportable(fam, V, extra) ==
-    LET cand == {c \in given[fam] \cup active[fam] \cup extra \cup V : \E v \in V : Eq(c, v)} IN
+    LET cand == {c \in ever[fam] \cup given[fam] \cup active[fam] \cup extra \cup V : \E v \in V : Eq(c, v)} IN
     {A \in SUBSET cand : Represents(A, V)}
 
 \* the same rule under several ids: how often it is kept - and therefore whether an identical
@@ -109,6 +110,7 @@ Op(ev, A) ==
        /\ A \in sp.actives
        /\ given' = [given EXCEPT ![ev.fam] = sp.given]
        /\ active' = [active EXCEPT ![ev.fam] = A]
+    /\ ever' = [ever EXCEPT ![ev.fam] = @ \cup SeqToSet(ev.rules)]
     /\ UNCHANGED on
 
 \* Enforcement probe on an idle resource with empty windows: a request of n tokens is blocked iff
@@ -121,14 +123,14 @@ ProbeBlocked(ev) ==
 
 Probe(ev) ==
     /\ ev.e = "probe" /\ on /\ ev.t >= now /\ now' = ev.t
-    /\ UNCHANGED <<on, given, active>>
+    /\ UNCHANGED <<on, given, active, ever>>
 
 Reset(ev) ==
     /\ ev.e = "reset"
     /\ on' = TRUE /\ now' = ev.t
-    /\ given' = [f \in Fams |-> {}] /\ active' = [f \in Fams |-> {}]
+    /\ given' = [f \in Fams |-> {}] /\ active' = [f \in Fams |-> {}] /\ ever' = [f \in Fams |-> {}]
 
-RMInit == on = FALSE /\ now = 0 /\ given = [f \in Fams |-> {}] /\ active = [f \in Fams |-> {}]
+RMInit == on = FALSE /\ now = 0 /\ given = [f \in Fams |-> {}] /\ active = [f \in Fams |-> {}] /\ ever = [f \in Fams |-> {}]
 
 (* invariants *)
 OnlyValid == \A f \in Fams : \A r \in active[f] : Valid(f, r) /\ \E g \in given[f] : Eq(g, r)
